@@ -27,7 +27,7 @@ def plan(tier):
     base = {"case_time_limit": 600,
             "required_classes": ["I:raw", "I:normalised", "I:real-state-complex-H", "T:thermal-prop", "T:exact", "P:exact-propagator", "X:evolve_exact",
                                  "space:GS", "space:EX", "offset!=0", "family:pc", "family:ps", "family:vmf", "family:cmf", "modes:repeated-frequency", "T:exact-nonidentity-input", "X:mpdm-noncommuting-input",
-                                 "P:reference-tied-to-model-hamiltonian",
+                                 "P:reference-tied-to-model-hamiltonian", "T:h_mpo_model-differs-from-the-model-of-the-state",
                                  "tree", "tree-scheme:prop_and_compress_tdrk4", "tree-scheme:tdvp_ps2"],
             "required_counters": {"oracle": 600, "ratios_measured": 40, "tree_thermal_runs": 20}}
     if tier == "quick":
@@ -341,14 +341,30 @@ def case_thermal(ctx):
     beta = min(beta, 6.0 / hn)          # keep exp(-beta H) well conditioned
     e_ref, eocc_ref, pocc_ref, hn = gibbs_refs(model, nexc, beta)
     ctx.describe({"kind": "thermal", "model": desc, "nexciton": nexc, "beta": beta, "beta*||H||": beta * hn})
+    other_model = None
+    if rng.random() < 0.35:
+        # the documented h_mpo_model argument: the infinite-temperature state is built for a reference model on the same
+        # basis (vibrations only), the Hamiltonian of the propagation is that of `model`
+        from renormalizer.model import Model
+        vset = set(model.v_dofs)
+        vib = [t for t in model.ham_terms if all(d in vset for d in t.dofs)]
+        if vib:
+            other_model = ctx.lib(Model, list(model.basis), vib, what="Model(reference)", promised=False)
+            ctx.cls("T:h_mpo_model-differs-from-the-model-of-the-state")
     errs = {}
     n1 = max(4, int(np.ceil(beta / 2 * hn / 0.5)))       # per-step tau*||H|| <= 0.5
     for N in (n1, 2 * n1):
         tau = beta / 2 / N
-        init = ctx.lib(MpDm.max_entangled_ex if nexc else MpDm.max_entangled_gs, model, what="MpDm.max_entangled")
+        if other_model is None:
+            init = ctx.lib(MpDm.max_entangled_ex if nexc else MpDm.max_entangled_gs, model, what="MpDm.max_entangled")
+        else:
+            init = ctx.lib(MpDm.max_entangled_ex if nexc else MpDm.max_entangled_gs, other_model, what="MpDm.max_entangled")
         init.compress_config = CompressConfig(CompressCriteria.fixed, max_bonddim=10 ** 6)
         cfg = EvolveConfig(EvolveMethod.prop_and_compress)
-        job = ctx.lib(ThermalProp, init, evolve_config=cfg, what="ThermalProp")
+        if other_model is None:
+            job = ctx.lib(ThermalProp, init, evolve_config=cfg, what="ThermalProp")
+        else:
+            job = ctx.lib(ThermalProp, init, h_mpo_model=model, evolve_config=cfg, what="ThermalProp(h_mpo_model)")
         ctx.lib(job.evolve, evolve_dt=-1j * tau, nsteps=N, what="ThermalProp.evolve")
         e = job.energies[-1]
         eocc = np.asarray(job.e_occupations_array[-1])
